@@ -154,3 +154,27 @@ Example C03_history_example :
   c_open (w_c (run ex_d 16 [] ex_or (COpen :: ex_tail))) = false /\
   List.length (pkts (obs (w_log (run ex_d 16 [] ex_or (COpen :: ex_tail))))) = 3.
 Proof. exact history_premises. Qed.
+
+(* ------------------------------------------------------------------ no error / in-bounds premise *)
+(* C03_history with its premises `w_err = false` and `inb_run` DERIVED (Tracer/NoError.v, see
+   Props/C02.v C02_no_error for the vocabulary): well-formed type, buffers that hold header +
+   context, well-typed sized arguments, first packet opened *)
+From BT.Tracer Require Import NoError NoErrorExample.
+Theorem C03_history_full :
+  forall d user cs_size, wf_d d user cs_size ->
+  forall buf oracle h,
+    fits cs_size (8 * buf) -> or_ok cs_size oracle -> bufs_ok d user buf oracle ->
+    Forall (call_okf d) h ->
+    let w0 := mk_w (init_ctx buf) oracle 0%Z [] false user in
+    let w1 := step d w0 COpen in
+    c_open (w_c w1) = true ->
+    let w := run d buf user oracle (COpen :: h) in
+    c_open (w_c w) = false ->
+    exists ds, outs d w1 h ds /\ read_all d (pkts (obs (w_log w))) = Some (List.concat ds).
+Proof. exact history_records_full. Qed.
+Print Assumptions C03_history_full.
+
+Example C03_history_full_example :
+  exists ds, outs ex_d (step ex_d (mk_w (init_ctx 16) ex_or 0%Z [] false []) COpen) ex_tail ds /\
+    read_all ex_d (pkts (obs (w_log (run ex_d 16 [] ex_or (COpen :: ex_tail))))) = Some (List.concat ds).
+Proof. exact history_full_example. Qed.
